@@ -191,13 +191,13 @@ def ProgramRefines : Prop :=
 /-- (d) the last replayed call of `inner` panics: `rethrowBlk` is entered without `SetThreadDefer(link)`; the next
     panic in a deferred call of `outer` longjmps into the dead frame of `inner`. -/
 def progD : Prog := ⟨[
-  ⟨[⟨.always, false, 0, 1⟩], [.defer 0 [], .call 2 [], .mark 1], false, false, false, []⟩,
-  ⟨[], [.recover], false, false, false, []⟩,
-  ⟨[⟨.always, false, 0, 3⟩, ⟨.always, false, 0, 4⟩], [.defer 0 [], .defer 1 [], .call 5 []], false, false, false, []⟩,
-  ⟨[], [.mark 2], false, false, false, []⟩,
-  ⟨[], [.panic (.lit 23)], false, false, false, []⟩,
-  ⟨[⟨.always, false, 0, 6⟩], [.defer 0 [], .panic (.lit 21)], false, false, false, []⟩,
-  ⟨[], [.panic (.lit 22)], false, false, false, []⟩]⟩
+  ⟨[⟨.always, false, 0, 1⟩], [.defer 0 [], .call 2 [], .mark 1], false, false, false, [], false⟩,
+  ⟨[], [.recover], false, false, false, [], false⟩,
+  ⟨[⟨.always, false, 0, 3⟩, ⟨.always, false, 0, 4⟩], [.defer 0 [], .defer 1 [], .call 5 []], false, false, false, [], false⟩,
+  ⟨[], [.mark 2], false, false, false, [], false⟩,
+  ⟨[], [.panic (.lit 23)], false, false, false, [], false⟩,
+  ⟨[⟨.always, false, 0, 6⟩], [.defer 0 [], .panic (.lit 21)], false, false, false, [], false⟩,
+  ⟨[], [.panic (.lit 22)], false, false, false, [], false⟩]⟩
 
 theorem program_refines_counterexample_d : ¬ ProgramRefines := by
   intro h
@@ -211,11 +211,11 @@ theorem program_d_repaired : Model.observe (Model.run ⟨false, true⟩ progD 24
 
 /-- (e) `recover()` in a helper called by the deferred function stops the panic (Go: returns nil). -/
 def progE : Prog := ⟨[
-  ⟨[⟨.always, false, 0, 1⟩], [.defer 0 [], .call 2 [], .mark 1], false, false, false, []⟩,
-  ⟨[], [.recover], false, false, false, []⟩,
-  ⟨[⟨.always, false, 0, 3⟩], [.defer 0 [], .panic (.lit 5)], false, false, false, []⟩,
-  ⟨[], [.call 4 []], false, false, false, []⟩,
-  ⟨[], [.recover], false, false, false, []⟩]⟩
+  ⟨[⟨.always, false, 0, 1⟩], [.defer 0 [], .call 2 [], .mark 1], false, false, false, [], false⟩,
+  ⟨[], [.recover], false, false, false, [], false⟩,
+  ⟨[⟨.always, false, 0, 3⟩], [.defer 0 [], .panic (.lit 5)], false, false, false, [], false⟩,
+  ⟨[], [.call 4 []], false, false, false, [], false⟩,
+  ⟨[], [.recover], false, false, false, [], false⟩]⟩
 
 theorem program_refines_counterexample_e : ¬ ProgramRefines := by
   intro h
@@ -225,9 +225,9 @@ theorem program_refines_counterexample_e : ¬ ProgramRefines := by
 
 /-- (f) `-O2`: `r = 3; defer …; r += 4; <fault>` recovered — the function returns 3 (Go: 7). -/
 def progF : Prog := ⟨[
-  ⟨[], [.call 1 []], false, false, false, []⟩,
-  ⟨[⟨.always, false, 0, 2⟩], [.set false .r (.lit 3), .defer 0 [], .add false .r (.lit 4), .fault], false, false, false, []⟩,
-  ⟨[], [.recover], false, false, false, []⟩]⟩
+  ⟨[], [.call 1 []], false, false, false, [], false⟩,
+  ⟨[⟨.always, false, 0, 2⟩], [.set false .r (.lit 3), .defer 0 [], .add false .r (.lit 4), .fault], false, false, false, [], false⟩,
+  ⟨[], [.recover], false, false, false, [], false⟩]⟩
 
 theorem program_refines_counterexample_f : ¬ ProgramRefines := by
   intro h
@@ -238,12 +238,12 @@ theorem program_refines_counterexample_f : ¬ ProgramRefines := by
 /-- (g) a panic raised and recovered inside a deferred call clears the outer panic (Go: the outer panic
     continues and is recovered by the caller with value 1). -/
 def progG : Prog := ⟨[
-  ⟨[⟨.always, false, 0, 1⟩], [.defer 0 [], .call 2 [], .mark 1], false, false, false, []⟩,
-  ⟨[], [.recover], false, false, false, []⟩,
-  ⟨[⟨.always, false, 0, 3⟩], [.defer 0 [], .panic (.lit 1)], false, false, false, []⟩,
-  ⟨[], [.call 4 [], .mark 2], false, false, false, []⟩,
-  ⟨[⟨.always, false, 0, 5⟩], [.defer 0 [], .panic (.lit 2)], false, false, false, []⟩,
-  ⟨[], [.recover], false, false, false, []⟩]⟩
+  ⟨[⟨.always, false, 0, 1⟩], [.defer 0 [], .call 2 [], .mark 1], false, false, false, [], false⟩,
+  ⟨[], [.recover], false, false, false, [], false⟩,
+  ⟨[⟨.always, false, 0, 3⟩], [.defer 0 [], .panic (.lit 1)], false, false, false, [], false⟩,
+  ⟨[], [.call 4 [], .mark 2], false, false, false, [], false⟩,
+  ⟨[⟨.always, false, 0, 5⟩], [.defer 0 [], .panic (.lit 2)], false, false, false, [], false⟩,
+  ⟨[], [.recover], false, false, false, [], false⟩]⟩
 
 theorem program_refines_counterexample_g : ¬ ProgramRefines := by
   intro h
@@ -255,15 +255,15 @@ theorem program_refines_counterexample_g : ¬ ProgramRefines := by
     writes a named result from a deferred closure (`F0` returns 42) -/
 theorem program_agrees_repanic_recover :
     Model.observe (Model.run ⟨false, false⟩ ⟨[
-      ⟨[⟨.always, true, 0, 1⟩, ⟨.always, false, 0, 2⟩, ⟨.always, false, 0, 3⟩], [.defer 0 [], .defer 1 [], .defer 2 [], .panic (.lit 1)], true, false, false, []⟩,
-      ⟨[], [.recover, .set true .r (.lit 42)], false, false, false, []⟩,
-      ⟨[], [.mark 5], false, false, false, []⟩,
-      ⟨[], [.recover, .panic (.lit 2)], false, false, false, []⟩]⟩ 24) =
+      ⟨[⟨.always, true, 0, 1⟩, ⟨.always, false, 0, 2⟩, ⟨.always, false, 0, 3⟩], [.defer 0 [], .defer 1 [], .defer 2 [], .panic (.lit 1)], true, false, false, [], false⟩,
+      ⟨[], [.recover, .set true .r (.lit 42)], false, false, false, [], false⟩,
+      ⟨[], [.mark 5], false, false, false, [], false⟩,
+      ⟨[], [.recover, .panic (.lit 2)], false, false, false, [], false⟩]⟩ 24) =
     Spec.observe (Spec.run ⟨[
-      ⟨[⟨.always, true, 0, 1⟩, ⟨.always, false, 0, 2⟩, ⟨.always, false, 0, 3⟩], [.defer 0 [], .defer 1 [], .defer 2 [], .panic (.lit 1)], true, false, false, []⟩,
-      ⟨[], [.recover, .set true .r (.lit 42)], false, false, false, []⟩,
-      ⟨[], [.mark 5], false, false, false, []⟩,
-      ⟨[], [.recover, .panic (.lit 2)], false, false, false, []⟩]⟩ 24) := by
+      ⟨[⟨.always, true, 0, 1⟩, ⟨.always, false, 0, 2⟩, ⟨.always, false, 0, 3⟩], [.defer 0 [], .defer 1 [], .defer 2 [], .panic (.lit 1)], true, false, false, [], false⟩,
+      ⟨[], [.recover, .set true .r (.lit 42)], false, false, false, [], false⟩,
+      ⟨[], [.mark 5], false, false, false, [], false⟩,
+      ⟨[], [.recover, .panic (.lit 2)], false, false, false, [], false⟩]⟩ 24) := by
   decide
 
 end LlgoVerif.Defer
